@@ -217,7 +217,12 @@ class SpecMixin:
         if name == "iff":
             return VBool(self.truth(val(a[0]), st) == self.truth(val(a[1]), st))
         if name == "ite":
-            return self.merge(self.truth(val(a[0]), st), val(a[1]), val(a[2]))
+            cnd = z3.simplify(self.truth(val(a[0]), st))
+            if z3.is_true(cnd):
+                return val(a[1])         # lazy on constants: the other branch may be ill-kinded
+            if z3.is_false(cnd):
+                return val(a[2])
+            return self.merge(cnd, val(a[1]), val(a[2]))
         if name == "forall":
             return self.spec_forall(node, st)
         if name == "fresh":
@@ -436,6 +441,8 @@ class SpecMixin:
         saved = {n: fr.vars.get(n, _MISSING) for n in names}
         for n, v in zip(names, args):
             fr.vars[n] = v
+        for n in names[len(args):]:
+            fr.vars[n] = VConst("<absent-argument>")
         try:
             return self.truth(self._one(self.ev(lam.body, st)), st)
         finally:
